@@ -145,6 +145,7 @@ struct PostWin {
 /// Flags and counters the property modules turn into evidence classes / the non-trivial rule.
 #[derive(Default, Debug, Clone)]
 pub struct Facts {
+    pub adapters_given: u32,
     pub wakeups: u32,
     pub adapter_waits_armed: u32,
     pub adapter_wakes: u32,
@@ -207,6 +208,8 @@ struct MAsync {
     touched: bool,
     woken_in_disp: bool,
     pending_wait: Option<bool>,
+    /// owned by the callback closure of this source: released when that closure is dropped
+    given_to: Option<SrcId>,
     /// a wake-up and an in-callback operation on the adapter fell into the same dispatch: their order is not known
     armed_unknown: bool,
 }
@@ -652,10 +655,13 @@ impl Monitor {
             }
         }
         if let Res::Panic { msg, file, line } = res {
-            let rule = if in_cb { "C08.panic" } else { "C15.panic" };
+            // a panicking handle operation: C08 when issued from a callback; a panicking remove() is also C06's business
+            // (the source must be released, exactly once), anything else outside a dispatch is filed under C15
+            let is_remove = matches!(op, ROp::Remove { .. });
+            let rule = if in_cb { "C08.panic" } else if is_remove { "C06.release" } else { "C15.panic" };
             return Some((
                 Violation::new(rule, format!("operation {op:?} panicked: {msg} at {file}:{line}")).with_sig(format!("{rule}/{}:{line}", short(file))),
-                vec!["C08", "C15"],
+                if is_remove { vec!["C08", "C15", "C06", "C16"] } else { vec!["C08", "C15"] },
             ));
         }
         let expect_only = |m: &Monitor, want: &[(RegKind, SrcId)], what: &str| -> V {
@@ -963,7 +969,7 @@ impl Monitor {
                         if self.asyncs.iter().any(|x| x.fd == fd) {
                             self.facts.readapts += 1;
                         }
-                        self.asyncs.push(MAsync { fd, live: true, nb_before: nonblocking_before, armed: None, wakes_seen: 0, fd_r: false, fd_w: false, owed: false, touched: false, woken_in_disp: false, pending_wait: None, armed_unknown: false });
+                        self.asyncs.push(MAsync { fd, live: true, nb_before: nonblocking_before, armed: None, wakes_seen: 0, fd_r: false, fd_w: false, owed: false, touched: false, woken_in_disp: false, pending_wait: None, armed_unknown: false, given_to: None });
                         if !nb_after {
                             return viol("C17.flags", &["C17", "C15"], format!("fd {fd} is still blocking after adapt_io succeeded"));
                         }
@@ -1028,6 +1034,14 @@ impl Monitor {
                         }
                         None => {}
                     }
+                }
+                None
+            }
+            ROp::AsyncGive { a, src } => {
+                if let Some(m) = self.asyncs.get_mut(a) {
+                    m.touched = true;
+                    m.given_to = Some(src);
+                    self.facts.adapters_given += 1;
                 }
                 None
             }
@@ -2016,6 +2030,14 @@ impl Monitor {
                 None
             }
             Ev::CbDrop { src } => {
+                for a in self.asyncs.iter_mut() {
+                    if a.given_to == Some(*src) && a.live {
+                        // the adapter goes with the closure that owned it
+                        a.live = false;
+                        a.armed = None;
+                        a.touched = true;
+                    }
+                }
                 let m = &mut self.srcs[*src];
                 m.cb_drops += 1;
                 if m.cb_drops > 1 {
@@ -2090,6 +2112,15 @@ impl Monitor {
                         &["C06"],
                         format!("into_source_inner on the kept dispatcher of source #{src} ({:?}, loop dropped: {}) failed: the loop still holds it", m.st, self.loop_dropped),
                     );
+                }
+                None
+            }
+            Ev::BagsCleared => {
+                for a in self.asyncs.iter_mut() {
+                    if a.given_to.is_some() {
+                        a.live = false;
+                        a.armed = None;
+                    }
                 }
                 None
             }
